@@ -90,10 +90,51 @@ Proof.
   - eauto.
 Qed.
 
-Lemma reverse_map_sound s u ps :
-  rm_lookup (reverse_map s) u = Some ps -> ps <> [] /\ forall p, In p ps -> In (p, u) s.
+Lemma reverse_map0_sound s u ps :
+  rm_lookup (reverse_map0 s) u = Some ps -> ps <> [] /\ forall p, In p ps -> In (p, u) s.
 Proof.
-  unfold reverse_map. apply reverse_map_fold; [intros ? ? H; discriminate | auto].
+  unfold reverse_map0. apply reverse_map_fold; [intros ? ? H; discriminate | auto].
+Qed.
+
+Lemma augment_fst s e : fst (augment s e) = fst e.
+Proof.
+  unfold augment. destruct (self_param (fst e)) as [p|]; [|reflexivity].
+  destruct (lookup s p) as [[?|?|]|]; reflexivity.
+Qed.
+
+Lemma rm_lookup_augment s rm u :
+  rm_lookup (map (augment s) rm) u =
+  match rm_lookup rm u with Some ps => Some (snd (augment s (u, ps))) | None => None end.
+Proof.
+  induction rm as [|[w ps] rm IH]; simpl; [reflexivity|].
+  pose proof (augment_fst s (w, ps)) as Hf. destruct (augment s (w, ps)) as [w' ps'] eqn:Ea.
+  simpl in Hf. subst w'. destruct (value_eqb w u) eqn:E; [|exact IH].
+  apply value_eqb_eq in E. subst w. rewrite Ea. reflexivity.
+Qed.
+
+(* every candidate is bound to the value, or is the identity-mapped parameter it spells *)
+Lemma reverse_map_sound s u ps :
+  rm_lookup (reverse_map s) u = Some ps ->
+  ps <> [] /\ forall p, In p ps ->
+    In (p, u) s \/ (lookup s p = Some VIdentity /\ self_param u = Some p).
+Proof.
+  unfold reverse_map. rewrite rm_lookup_augment.
+  destruct (rm_lookup (reverse_map0 s) u) as [ps0|] eqn:E0; [|discriminate].
+  destruct (reverse_map0_sound _ _ _ E0) as [Hne Hin].
+  intro H. inversion H; subst ps; clear H. unfold augment. cbn [fst snd].
+  destruct (self_param u) as [q|] eqn:Eq; [|split; auto].
+  destruct (lookup s q) as [[?|?|]|] eqn:El; try (split; auto).
+  - destruct ps0; discriminate.
+  - intros p Hp. apply in_app_or in Hp. destruct Hp as [Hp|[Hp|[]]]; [auto|]. subst. auto.
+Qed.
+
+Lemma reverse_map_keys s u ps :
+  rm_lookup (reverse_map s) u = Some ps -> exists p, In (p, u) s.
+Proof.
+  unfold reverse_map. rewrite rm_lookup_augment.
+  destruct (rm_lookup (reverse_map0 s) u) as [ps0|] eqn:E0; [|discriminate].
+  destruct (reverse_map0_sound _ _ _ E0) as [Hne Hin]. intros _.
+  destruct ps0 as [|p ps0]; [congruence|]. exists p. apply Hin. left; reflexivity.
 Qed.
 
 Lemma lookup_in_nodup s : NoDup (map fst s) -> forall p v, In (p, v) s -> lookup s p = Some v.
@@ -118,8 +159,7 @@ Theorem subst_identity s : all_identity s -> forall t, subst (reverse_map s) t =
 Proof.
   intros Hid.
   assert (Hnone : forall u ps, rm_lookup (reverse_map s) u = Some ps -> u = VIdentity).
-  { intros u ps H. destruct (reverse_map_sound _ _ _ H) as [Hne Hin].
-    destruct ps as [|p ps]; [congruence|]. eapply Hid. apply Hin. left; reflexivity. }
+  { intros u ps H. destruct (reverse_map_keys _ _ _ H) as [p Hp]. eapply Hid. exact Hp. }
   induction t as [l ks IH] using term_ind'. rewrite subst_eq. cbv zeta.
   assert (D : map (Node l) (cprod (map (subst (reverse_map s)) ks)) = [Node l ks]).
   { assert (E : map (subst (reverse_map s)) ks = map (fun x => [x]) ks).
@@ -218,9 +258,12 @@ Theorem subst_roundtrip s : wf_subs s -> forall t,
 Proof.
   intros (Hnd & Hpar & Hsort).
   assert (Hrm : forall u ps p, rm_lookup (reverse_map s) u = Some ps -> In p ps ->
-                               lookup s p = Some u /\ is_param_ident p = true).
+                               (lookup s p = Some u \/ (lookup s p = Some VIdentity /\ self_param u = Some p))
+                               /\ is_param_ident p = true).
   { intros u ps p H Hp. destruct (reverse_map_sound _ _ _ H) as [_ Hin].
-    split; [apply lookup_in_nodup; auto | eapply Hpar; eauto]. }
+    destruct (Hin p Hp) as [Hi|[Hi Hs]].
+    - split; [left; apply lookup_in_nodup; auto | eapply Hpar; eauto].
+    - split; [right; auto | eapply Hpar; apply lookup_in; eauto]. }
   assert (Hne : forall u, rm_lookup (reverse_map s) u <> Some []).
   { intros u H. destruct (reverse_map_sound _ _ _ H) as [Hn _]. congruence. }
   induction t as [l ks IH] using term_ind'. intros Hst r Hr.
@@ -283,7 +326,8 @@ Proof.
       destruct (Hrm _ _ _ Er Hin) as [Hl Hp].
       unfold mk_ty_param. rewrite apply_eq. unfold apply_node.
       pose proof (ty_param_mk _ Hp) as E. unfold mk_ty_param in E. rewrite E.
-      unfold bound_term. rewrite Hl. reflexivity.
+      unfold bound_term. destruct Hl as [Hl|[Hl Hself]]; rewrite Hl; [reflexivity|].
+      cbn [self_param] in Hself. apply ty_param_inv in Hself. rewrite Hself. reflexivity.
     - apply Hdesc; [|exact Hr]. cbn [andb is_some orb].
       destruct (is_expr_kind l) eqn:Ee; [|reflexivity].
       apply expr_not_type in Ee. congruence. }
@@ -296,7 +340,8 @@ Proof.
       unfold mk_ex_param. rewrite apply_eq. unfold apply_node.
       assert (Ety : ty_param (Node (K "EPath" "") [Node (K "ONone" "") []; mk_path_ident q]) = None) by reflexivity.
       pose proof (ex_param_mk _ Hp) as E. unfold mk_ex_param in E. rewrite Ety, E.
-      unfold bound_term. rewrite Hl. reflexivity.
+      unfold bound_term. destruct Hl as [Hl|[Hl Hself]]; rewrite Hl; [reflexivity|].
+      cbn [self_param] in Hself. apply ex_param_inv in Hself. rewrite Hself. reflexivity.
     - apply Hdesc; [|exact Hr]. reflexivity. }
   apply Hdesc; [|exact Hr]. reflexivity.
 Qed.
